@@ -12,7 +12,7 @@ Enumerated per (key, hash[, MGF hash, salt length], message):
 Oracle: library accepts => RFC 8017 verification accepts (8.2.2: EM == EMSA-PKCS1-v1_5-ENCODE(M); 8.1.2/9.1.2 steps);
 anything else than acceptance must be ValueError.
 """
-from ..common import Acc, exc_site, short, seeded, seeded_int, asc
+from ..common import Acc, exc_site, short, seeded, asc
 from ..ref import rsa as R
 from ..ref import der as D
 from ..ref import nt
@@ -175,8 +175,8 @@ print("recovered EM:", em.hex() if em else None)
 try:
     pkcs1_15.new(key.public_key()).verify(h, sig)
     print("library: accepted")
-except ValueError as e:
-    print("library: ValueError", e)
+except Exception as e:
+    print("library:", type(e).__name__, e)
 print("RFC 8017 8.2.2: %s")
 '''
 
@@ -199,9 +199,13 @@ def v15_sign_case(kd, hn, msg, acc):
         elif out[0] != "ValueError":
             acc.observe("pkcs1_15.sign raises %s (documented: ValueError) when the modulus is too short for the DigestInfo" % out[0])
         return None
+    if out[0] in ("ValueError", "TypeError"):
+        acc.observe("pkcs1_15 sign refuses (%s: %s): %s/%s" % (out[0], out[1], kd["name"], hn))
+        return None
     if out[0] != "accept":
         acc.violation("C04/pkcs1_15/sign-raises/%s@%s" % (out[0], exc_site(out[1])), pre + ": sign raised %s: %s" % (out[0], out[1]), case)
         return None
+    acc.count("signatures_ok")
     sig = out[1]
     exp = R.i2osp(priv(kd, R.os2ip(em)), k)
     if sig != exp or type(sig) is not bytes:
@@ -424,8 +428,8 @@ ver = pss.new(key.public_key()%s)
 try:
     ver.verify(h, sig)
     print("library: accepted")
-except ValueError as e:
-    print("library: ValueError", e)
+except Exception as e:
+    print("library:", type(e).__name__, e)
 print("RFC 8017 8.1.2: %s")
 '''
 
@@ -468,9 +472,13 @@ def pss_sign_case(kd, cfg, msg, salt, acc):
         elif out[0] != "ValueError":
             acc.observe("pss.sign raises %s (documented: ValueError) when the salt does not fit" % out[0])
         return None
+    if out[0] in ("ValueError", "TypeError"):
+        acc.observe("pss sign refuses (%s: %s): %s, %s" % (out[0], out[1], kd["name"], cfg_str(cfg)))
+        return None
     if out[0] != "accept":
         acc.violation("C04/pss/sign-raises/%s@%s" % (out[0], exc_site(out[1])), pre + ": sign raised %s: %s" % (out[0], out[1]), case)
         return None
+    acc.count("signatures_ok")
     sig = out[1]
     exp = R.i2osp(priv(kd, R.os2ip(em)), k)
     if tape.pos != sl:
@@ -679,7 +687,7 @@ def worker(shards):
             for mn in mnames:
                 msg = msgs[mn]
                 sig = None
-                salts = pss_salts(kd, cfg)[:3] if sl >= 0 else [b""]
+                salts = pss_salts(kd, cfg)[:4] if sl >= 0 else [b""]
                 if sl > em_len - B.hash_size(hn) - 2 or sl < 0:
                     salts = [bytes(max(sl, 0))]
                 for si, salt in enumerate(salts):
